@@ -602,6 +602,9 @@ func (fe *FnEnc) frameCheck(ev *Eval, pos token.Pos) {
 			if strings.HasPrefix(gk, "lock_") {
 				continue // lock state is checked by lock:released
 			}
+			if strings.HasPrefix(gk, "iter_") {
+				continue // iteration bookkeeping of range-over-map loops
+			}
 			goals = append(goals, "(= "+cur+" "+old+")")
 			what = append(what, "ghost "+gk)
 		}
